@@ -128,6 +128,7 @@ fn rounds_of(t: &Value) -> Vec<Vec<Value>> {
 fn run_scenario(sc: &Value, decider: Box<dyn Decider>) -> Vec<Value> {
     HOST.with(|h| *h.borrow_mut() = Some(Host::new(decider)));
     WAKERS.with(|w| w.borrow_mut().clear());
+    script::clear_handoff();
     rt::verif::TRACER.store(tracer as usize, std::sync::atomic::Ordering::Relaxed);
     ev(json!({"ev": "reset", "scenario": sc["id"], "driver": sc["driver"]}));
     let driver = sc["driver"].as_str().unwrap_or("export");
